@@ -1,26 +1,34 @@
 import OcppProps.CDSim
 import OcppProps.C16
+import OcppProps.C07Fine
 import OcppModel.Expected
 import OcppGen.Skeletons
 
 /-!
 # C07 — request dispatchers never deadlock
 
-**Full statement (false of the code as it is):** for every interleaving of send calls, replies, time-outs,
-write failures and connection events every API call returns and every accepted request is eventually written
-or cancelled; a problem on one connection never stops the others.
+**Full statement:** for every interleaving of send calls, replies, time-outs, write failures and connection events
+every API call returns and every accepted request is eventually written or cancelled; a problem on one connection never
+stops the others.
 
-The schedule monitors reproduce deadlocks on the unchanged implementation (known findings, DESIGN.md
-section 6, S11): the pump goroutine sends to its own capacity-1 `readyForDispatch` (two near-simultaneous
-completions), senders blocked on a full request channel while holding the dispatcher read lock against a
-pending writer, `Pause` draining an already consumed timer channel.
+On the pinned tree the schedule monitors reproduced deadlocks (DESIGN.md section 6, S11 and the `Pause` timer drain); each
+got a deterministic directed scenario and a small repair in /repo (DESIGN.md 13.3), and no finding is open.
 
-**Proved (`C07_partial`)**: at quiescence granularity — events delivered one at a time, any history, any
-length, any mix of faults — the client endpoint never wedges and never panics (`always_alive`), the internal
-activity after each event terminates (the model functions are total, with fuel bounded by the queue length),
-every quiescent state satisfies "head written ∨ queue empty ∨ paused ∨ stopped" (`quiescent_progress`), and
-the ready channel is empty whenever the pump is parked (`Inv.tok0`), which is exactly the condition whose
-violation the monitors exhibit below quiescence.
+**Proved at quiescence granularity (`C07_partial`)** — events delivered one at a time, any history, any length, any mix of
+faults — the client endpoint never wedges and never panics (`always_alive`), the internal activity after each event
+terminates (the model functions are total, with fuel bounded by the queue length), every quiescent state satisfies "head
+written ∨ queue empty ∨ paused ∨ stopped" (`quiescent_progress`), and the ready channel is empty whenever the pump is
+parked (`Inv.tok0`).
+
+**Proved below quiescence, for every interleaving** of the pump, the reader, any number of senders and the link in the
+small-step model `Ocpp.ClientFine` of the repaired client dispatcher's signalling protocol (`OcppProps/C07Fine.lean`):
+no operation of a sender, the reader or the link ever blocks (`fine_no_thread_blocks`), the pump never crashes
+(`fine_no_crash`), and there is no lost wake-up (`fine_no_lost_wakeup`): whenever the pump is parked and no token is
+waiting or about to be posted, there is nothing it could dispatch. `fine_old_guard_order_crashes` is the interleaving that
+showed the first version of fix d6325cc to be wrong (queue tested before the pending request); the stress monitor then
+reproduced that crash on the real code and the order was corrected (23ce802). Tie of this model: T3 fingerprints of
+`messagePump`, `dispatchNextRequest`, `SendRequest`, `Pause`, `Resume`, `CompleteRequest` + the directed scenarios and the
+stress monitors; the server dispatcher has no such model (searched only).
 -/
 
 namespace C07
@@ -66,6 +74,36 @@ theorem ready_channel_empty (cap : Int) (evs : List Ev) (h : wf [] (CD.init cap)
 theorem const_caps : Gen.Constants.clientRequestChanCap = 1 ∧ Gen.Constants.clientReadyChanCap = 1 ∧
     Gen.Constants.serverRequestChanCap = 20 ∧ Gen.Constants.serverReadyChanCap = 1 ∧
     Gen.Constants.serverTimerChanCap = 10 := by decide
+/-! ## below quiescence (client dispatcher), every interleaving — proofs in `OcppProps/C07Fine.lean` -/
+
+/-- nothing to deadlock on: every operation of a sender, the reader and the link is enabled whenever its thread is at it;
+    the pump waits only at its select or inside `network.Write` -/
+theorem fine_no_thread_blocks (s : Ocpp.ClientFine.St) :
+    (s.mid > 0 → (Ocpp.ClientFine.step s .wakeup).isSome) ∧
+    (s.reader ≠ Ocpp.ClientFine.Reader.idle → (Ocpp.ClientFine.step s .rstep).isSome) ∧
+    (s.link = Ocpp.ClientFine.Link.resuming → (Ocpp.ClientFine.step s .lstep).isSome) ∧
+    ((∀ r, s.pump ≠ Ocpp.ClientFine.Pump.sel r) → (∀ id, s.pump ≠ Ocpp.ClientFine.Pump.writing id) → (Ocpp.ClientFine.step s .pstep).isSome) ∧
+    (∀ id, s.pump = Ocpp.ClientFine.Pump.writing id → (Ocpp.ClientFine.step s .writeOk).isSome ∧ (Ocpp.ClientFine.step s .writeFail).isSome) :=
+  C07Fine.no_thread_blocks s
+
+/-- the pump never dereferences a nil bundle, for every interleaving -/
+theorem fine_no_crash (ls : List Ocpp.ClientFine.Label) (s' : Ocpp.ClientFine.St) (h : Ocpp.ClientFine.runL {} ls = some s') : s'.crash = false :=
+  C07Fine.no_crash ls s' h
+
+/-- **no lost wake-up, every interleaving**: pump parked, no token waiting or about to be posted ⇒ nothing to dispatch -/
+theorem fine_no_lost_wakeup (ls : List Ocpp.ClientFine.Label) (s' : Ocpp.ClientFine.St) (h : Ocpp.ClientFine.runL {} ls = some s')
+    (hp : C07Fine.parked s' = true) (hq : C07Fine.quiet s' = true) : C07Fine.work s' = false :=
+  C07Fine.no_lost_wakeup ls s' h hp hq
+
+/-- the guard order of the first version of fix d6325cc reaches the nil dereference -/
+theorem fine_old_guard_order_crashes :
+    (Ocpp.ClientFine.runL { pendFirst := false } [.push 1, .wakeup, .takeWake, .pstep, .pstep, .pstep, .resume, .lstep, .pstep, .writeOk,
+       .takeReady, .pstep, .pstep, .reply 1, .rstep, .rstep, .pstep, .pstep]).map (·.crash) = some true :=
+  C07Fine.old_guard_order_crashes
+
+/-- non-vacuity: a concrete interleaving reaches a parked, quiet state with nothing left to do -/
+theorem fine_demo_run : (Ocpp.ClientFine.runL {} C07Fine.demoSched).map C07Fine.demoOk = some true := C07Fine.demo_run
+
 theorem skel_cdSendRequest : Gen.Skeletons.cdSendRequest = Ocpp.Expected.cdSendRequest := by decide
 theorem skel_cdMessagePump : Gen.Skeletons.cdMessagePump = Ocpp.Expected.cdMessagePump := by decide
 theorem skel_cdComplete : Gen.Skeletons.cdComplete = Ocpp.Expected.cdComplete := by decide
